@@ -1,7 +1,9 @@
 import Prom.Lemmas.C10Aux
+import Prom.Lemmas.C10RealTime
+import Prom.Lemmas.C01Mono
 
 namespace Prom.C10
-open Prom Prom.Conc
+open Prom Prom.Conc Prom.RT Prom.C01
 
 /-- states reachable by accepting items of a real trace: any number of threads, any programs
     (`with`, `remove`, `reset`, `collect`, updates through handles), any interleaving of their
@@ -39,7 +41,105 @@ theorem keys_distinct {prog : List (List String)} {s : VSt} (h : VReach prog s) 
   | step _ hs ih =>
     cases vItem_trans hs with
     | frame hsp _ => rw [hsp]; exact ih
-    | eff t op hsp _ => rw [hsp]; exact apply_specInv _ op ih
+    | eff t i op hsp _ => rw [hsp]; exact apply_specInv _ op ih
+
+/-! ### the commit order is consistent with real time -/
+
+/-- the states of accepted runs are the continuations (`VRun`) of the initial state -/
+theorem vReach_iff_vRun {prog : List (List String)} {s : VSt} : VReach prog s ↔ VRun (vInit prog) s := by
+  constructor
+  · intro h
+    induction h with
+    | init => exact .init
+    | step _ hs ih => exact .step ih hs
+  · intro h
+    induction h with
+    | init => exact .init
+    | step _ hs ih => exact .step ih hs
+
+/-- **vec_commits_within_call** — every entry of the commit log was appended by a step of its own
+    call, between that call's call mark and its return mark: an accepted item that changes the log is
+    an EVENT of a thread whose call is open (`pc ≠ none`: the call mark has been accepted, the return
+    mark has not), it appends exactly one entry `x`, and `x` carries this thread and the index of that
+    open call (which the step leaves open or complete, but does not close: `idx` unchanged). Call
+    marks, return marks and the other events leave the log as it is. (The update through a handle
+    reported as sub-call `<i>u` after call `i` returned is such an open call too; it runs under the
+    thread's current index `i + 1`.) -/
+theorem vec_commits_within_call {s s' : VSt} {it : Item} (h : vItem s it = .ok s') :
+    s'.lin = s.lin ∨
+    ∃ e th x, it = .ev e ∧ s.ths[e.tid]? = some th ∧ th.pc.isSome = true ∧
+      s'.lin = s.lin ++ [x] ∧ x.tid = e.tid ∧ x.idx = th.idx ∧
+      ∃ th', s'.ths[e.tid]? = some th' ∧ th'.idx = th.idx ∧ th'.ops = th.ops :=
+  vItem_commit_within_call h
+
+/-- **vec_log_index_bound** (the invariant behind the real-time theorem) — in every state of an
+    accepted run every entry of the commit log belongs to an existing thread and to a call that this
+    thread has at least reached: no entry is tagged with a call of the future -/
+theorem vec_log_index_bound {prog : List (List String)} {s : VSt} (h : VReach prog s) :
+    ∀ e ∈ s.lin, ∃ th, s.ths[e.tid]? = some th ∧ e.idx ≤ th.idx :=
+  vRun_bound (vReach_iff_vRun.1 h)
+
+/-- **vec_returned_call_is_final** — once a call `(t, i)` has returned (state `s`), no later step
+    commits anything for it: in every continuation `s'`, all its log entries lie inside the log of
+    `s` (which is a prefix of the log of `s'`) -/
+theorem vec_returned_call_is_final {s s' : VSt} (h' : VRun s s') {t i : Nat} {th : Th VPc}
+    (hth : s.ths[t]? = some th) (hret : i < th.idx) {p : Nat} {x : VLin}
+    (hx : s'.lin[p]? = some x) (hxt : x.tid = t ∧ x.idx = i) : p < s.lin.length ∧ s.lin <+: s'.lin :=
+  ⟨vRun_returned_pos h' hth hret hx hxt, vRun_lin_prefix h'⟩
+
+/-- **vec_real_time_order** — the commit order of the vector machine is consistent with real time.
+    Take any state `s` of an accepted run and any continuation to `s'`. A call (`t`, `i`) that has
+    RETURNED in `s` (`i <` the call index of thread `t`) and a call (`t'`, `i'`) that in `s` has not
+    started - thread `t'` has not reached it yet (`idx < i'`), or, more generally, nothing has been
+    committed for it yet (no entry of the log of `s` is tagged `(t', i')`): wherever entries of the
+    two calls appear in the later commit log, EVERY entry of the first is before EVERY entry of the
+    second (a `collect`, a `with` that misses … may commit more than once; the statement is about all
+    their entries).
+
+    The second alternative replaces "`i' = th'.idx ∧ th'.pc = none ∧ th'.retv = none`" (thread `t'` is
+    idle and `i'` is its next call), which is NOT sufficient for this machine: the update through a
+    handle is reported as a sub-call `<i>u` AFTER call `i` has returned, it commits under the thread's
+    current index `i + 1`, and the thread is idle again afterwards with `idx = i + 1` - see
+    `vec_idle_thread_may_have_committed` for an accepted run in which a call that returned later is
+    therefore logged after an entry tagged with the idle thread's next call. -/
+theorem vec_real_time_order {prog : List (List String)} {s s' : VSt}
+    (h : VReach prog s) (h' : VRun s s')
+    {t t' : Nat} {th th' : Th VPc} (hth : s.ths[t]? = some th) (hth' : s.ths[t']? = some th')
+    {i i' : Nat} (hret : i < th.idx)
+    (hnot : th'.idx < i' ∨ ∀ e ∈ s.lin, ¬ (e.tid = t' ∧ e.idx = i'))
+    {p q : Nat} {x y : VLin} (hx : s'.lin[p]? = some x) (hy : s'.lin[q]? = some y)
+    (hxt : x.tid = t ∧ x.idx = i) (hyt : y.tid = t' ∧ y.idx = i') : p < q := by
+  have hno : ∀ e ∈ s.lin, ¬ (e.tid = t' ∧ e.idx = i') := by
+    rcases hnot with hn | hn
+    · exact vRun_no_entry_future (vReach_iff_vRun.1 h) hth' hn
+    · exact hn
+  exact vRun_real_time h' hth hret hno hx hy hxt hyt
+
+/-- **vec_idle_thread_may_have_committed** — why "not started" cannot be "`i' = idx` of an idle
+    thread" for this machine: `subcallTrace` is an accepted run of the programs `with:a` | `reset`
+    after which call (1, 0) has RETURNED (`0 < idx` of thread 1), thread 0 is idle with call index 1
+    (`pc = none`, `retv = none`: by that reading call (0, 1) "has not started"), and yet the commit log
+    is `(0,0) getOrCreate, (0,1) inc, (1,0) reset`: the entry of the returned call (1, 0), at position
+    2, comes AFTER the entry tagged (0, 1), at position 1 - the handle update of sub-call `0u`, made
+    under thread 0's current index 1 before call (1, 0) began. With `s' = s` this refutes the
+    real-time statement in that formulation; `vec_real_time_order` excludes it by asking that
+    nothing be committed yet for (`t'`, `i'`). -/
+theorem vec_idle_thread_may_have_committed :
+    ∃ s, VReach [["with:a"], ["reset"]] s ∧ VRun s s ∧
+      ∃ th th' x y, s.ths[1]? = some th ∧ s.ths[0]? = some th' ∧ 0 < th.idx ∧
+        (1 = th'.idx ∧ th'.pc = none ∧ th'.retv = none) ∧
+        s.lin[2]? = some x ∧ s.lin[1]? = some y ∧ (x.tid = 1 ∧ x.idx = 0) ∧ (y.tid = 0 ∧ y.idx = 1) ∧
+        ¬ (2 < 1) := by
+  have r0 : Nat.repr 0 = "0" := by decide +kernel
+  have og : ordGe "Relaxed" "Relaxed" = true := by decide +kernel
+  have h : ∃ s, runItems vItem (vInit [["with:a"], ["reset"]]) subcallTrace 0 = .ok s ∧
+      ∃ th th' x y, s.ths[1]? = some th ∧ s.ths[0]? = some th' ∧ 0 < th.idx ∧
+        (1 = th'.idx ∧ th'.pc = none ∧ th'.retv = none) ∧
+        s.lin[2]? = some x ∧ s.lin[1]? = some y ∧ (x.tid = 1 ∧ x.idx = 0) ∧ (y.tid = 0 ∧ y.idx = 1) := by
+    simp [runItems, subcallTrace, vInit, vItem, vStep, vEff, setHandle, Conc.guard, openCall, closeCall, r0, og,
+      opName_with_a, opArg_with_a, opName_reset, endsWith_0u, endsWith_0, VSpec.lookup, VSpec.apply]
+  obtain ⟨s, hr, th, th', x, y, h1, h2, h3, h4, h5, h6, h7, h8⟩ := h
+  exact ⟨s, vReach_iff_vRun.2 (runItems_vRun hr), .init, th, th', x, y, h1, h2, h3, h4, h5, h6, h7, h8, by omega⟩
 
 /-! ### consequences of the sequential specification (what "behaves like a map" means) -/
 
